@@ -4,7 +4,7 @@ from __future__ import annotations
 import ast
 
 from sa.report import Ctx
-from sa.srcmodel import ClassInfo, FuncInfo
+from sa.srcmodel import ClassInfo, FuncInfo, func_body
 
 
 def _emit_fields(call: ast.Call) -> list[tuple[str, str]]:
@@ -75,8 +75,13 @@ def check_generator(ctx: Ctx, fi: FuncInfo) -> None:
                 if arr == "params":
                     counters.add(nm)
                     n_emit += 1
-    ctx.floor("make_ann_param_emissions", n_emit, 5)
-    ctx.need(len(counters) == 1, "single parameter counter in make_ann")
+    ctx.count("make_ann_param_emissions", n_emit)
+    if len(counters) != 1:
+        ctx.ob("D16.4", fi, fi.node, False,
+               f"the emitted params[...] indices use {sorted(counters)} "
+               "instead of one running parameter counter",
+               construct="single parameter counter")
+        return
     counter = next(iter(counters))
 
     # --- pending-state walk ----------------------------------------------
@@ -567,3 +572,377 @@ def check_layer_protocol(ctx: Ctx, fi: FuncInfo) -> None:
                "outputs, neuron outputs only overwrite dead variables, and "
                "the output layer reads exactly the last hidden layer",
                construct="layer bookkeeping")
+
+
+# ------------------------------------------------------------------ D16.7
+def check_emission_grammar(ctx: Ctx, fi: FuncInfo) -> None:
+    """The emitted statements are well-formed and define what they use."""
+    repo = ctx.repo
+    body = func_body(fi)
+    problems: list[str] = []
+
+    def src(n: ast.AST) -> str:
+        return ast.unparse(n)
+    emit_names: dict[str, str] = {}       # alias -> write | writeln
+    for s in body:
+        if isinstance(s, (ast.Assign, ast.AnnAssign)) and isinstance(
+                s.value, ast.Attribute) and s.value.attr in (
+                "write", "writeln"):
+            tg = s.targets[0] if isinstance(s, ast.Assign) else s.target
+            if isinstance(tg, ast.Name):
+                emit_names[tg.id] = s.value.attr
+
+    def emits(stmt: ast.stmt) -> tuple[str, ast.expr | None] | None:
+        if isinstance(stmt, ast.Expr) and isinstance(
+                stmt.value, ast.Call) and isinstance(
+                stmt.value.func, ast.Name) and \
+                stmt.value.func.id in emit_names:
+            a = stmt.value.args[0] if stmt.value.args else None
+            return emit_names[stmt.value.func.id], a
+        return None
+
+    def text_of(e: ast.expr | None) -> str:
+        """Constant part of an emitted (f-)string; fields become `#`."""
+        if e is None:
+            return ""
+        if isinstance(e, ast.Constant) and isinstance(e.value, str):
+            return e.value
+        if isinstance(e, ast.JoinedStr):
+            return "".join(v.value if isinstance(v, ast.Constant)
+                           else "#" for v in e.values)
+        return "?"
+    # ---- every statement-building block is balanced and ends the line
+    n_blocks = 0
+
+    def check_block(stmts: list[ast.stmt], where: str) -> None:
+        nonlocal n_blocks
+        seq: list[tuple[str, str]] = []
+        for st in stmts:
+            em = emits(st)
+            if em is not None:
+                seq.append((em[0], text_of(em[1])))
+            elif isinstance(st, ast.For):
+                inner = [emits(x) for x in st.body]
+                for em2 in inner:
+                    if em2 is not None:
+                        t = text_of(em2[1])
+                        if t.count("(") != t.count(")") or \
+                                em2[0] == "writeln":
+                            problems.append(
+                                f"{where}: a repeated fragment "
+                                f"`{t}` is unbalanced or ends the line")
+        if not seq:
+            return
+        n_blocks += 1
+        text = "".join(t for _, t in seq)
+        if "?" in text:
+            problems.append(f"{where}: emitted text not constant")
+        if text.count("(") != text.count(")"):
+            problems.append(f"{where}: the emitted statement `{text}` has "
+                            "unbalanced parentheses")
+        if seq[-1][0] != "writeln":
+            problems.append(f"{where}: the emitted statement is not "
+                            "terminated (writeln)")
+        if any(k == "writeln" for k, _ in seq[:-1]):
+            problems.append(f"{where}: the statement is broken over "
+                            "several lines")
+        if "=" not in text.split("(")[0]:
+            problems.append(f"{where}: the emitted line `{text}` is not an "
+                            "assignment")
+    for s in ast.walk(fi.node):
+        if isinstance(s, ast.For):
+            direct = [emits(x) for x in s.body if emits(x) is not None]
+            # a loop that only emits `write` fragments belongs to the
+            # statement built by the enclosing block
+            if direct and any(k == "writeln" for k, _ in direct):
+                check_block(s.body, f"loop at line {s.lineno}")
+            elif direct and not any(
+                    s in b and any(emits(x) is not None and emits(x)[0]
+                                   == "writeln" for x in b)
+                    for b in _blocks_of(fi.node)):
+                problems.append(f"loop at line {s.lineno}: fragments are "
+                                "emitted but the statement is never "
+                                "terminated")
+    if n_blocks < 3:
+        problems.append("fewer than three emitting loops (inputs, hidden "
+                        "neurons, outputs) found")
+    # ---- the statements are the documented network: a hidden neuron is
+    # atan(bias + sum w x), an output is multiplier * atan(bias + sum w x)
+    texts: list[tuple[str, list[str]]] = []
+    for s in ast.walk(fi.node):
+        if isinstance(s, ast.For):
+            direct = [emits(x) for x in s.body if emits(x) is not None]
+            if direct and any(k == "writeln" for k, _ in direct):
+                frags = []
+                for st in s.body:
+                    if isinstance(st, ast.For):
+                        frags += [text_of(emits(x)[1]) for x in st.body
+                                  if emits(x) is not None]
+                texts.append(("".join(text_of(a) for _, a in direct), frags))
+    want = {("# = state[#]", ()),
+            ("# = np.arctan(params[#])", (" + params[#] * #",)),
+            ("out[#] = params[#] * np.arctan(params[#])",
+             (" + params[#] * #",))}
+    got = {(t, tuple(f)) for t, f in texts}
+    if got != want:
+        problems.append(
+            "the emitted statements are not {input load, hidden neuron = "
+            "atan(bias + sum weight * input), output = multiplier * "
+            f"atan(bias + sum weight * input)}}: {sorted(got)}")
+    # the weighted sum is inserted before the closing parenthesis
+    for s in ast.walk(fi.node):
+        if isinstance(s, ast.For):
+            seq = [(emits(x)[0], text_of(emits(x)[1])) if emits(
+                x) is not None else ("loop", "") if isinstance(x, ast.For)
+                else None for x in s.body]
+            seq = [q for q in seq if q is not None]
+            if any(k == "writeln" for k, _ in seq) and any(
+                    k == "loop" for k, _ in seq):
+                li = [k for k, _ in seq].index("loop")
+                if not (seq[-1] == ("writeln", ")") and li == len(seq) - 2):
+                    problems.append(f"loop at line {s.lineno}: the weighted "
+                                    "inputs are not added inside the "
+                                    "arctan(...)")
+    # ---- inputs are defined before they are used: the state loop emits
+    # `<name> = state[i]` for the very name it registers as an input
+    st_loops = [s for s in body if isinstance(s, ast.For) and src(
+        s.iter).replace(" ", "") == "range(state_dims)"]
+    ok_def = False
+    for s in st_loops:
+        names = [x for x in s.body if isinstance(x, (ast.Assign,
+                                                     ast.AnnAssign))]
+        apps = [x for x in s.body if isinstance(x, ast.Expr) and isinstance(
+            x.value, ast.Call) and src(x.value.func).endswith(".append")]
+        ems = [emits(x) for x in s.body if emits(x) is not None]
+        if len(names) == 1 and len(apps) == 1 and len(ems) == 1:
+            v = src(names[0].targets[0] if isinstance(names[0], ast.Assign)
+                    else names[0].target)
+            e = ems[0][1]
+            iv = src(s.target)
+            ok_def = src(apps[0].value.args[0]) == v and isinstance(
+                e, ast.JoinedStr) and [
+                src(x.value) if isinstance(x, ast.FormattedValue)
+                else x.value for x in e.values] == [
+                v, " = state[", iv, "]"]
+    if not ok_def:
+        problems.append("the input variables are registered without "
+                        "`<name> = state[i]` being emitted for them")
+    # ---- fresh variable names are unique; recycling pops only a
+    # non-empty list
+    fresh = [s for s in ast.walk(fi.node) if isinstance(
+        s, (ast.Assign, ast.AnnAssign)) and isinstance(
+        s.value, ast.JoinedStr) and any(isinstance(
+            v, ast.FormattedValue) for v in s.value.values) and src(
+        s.value).startswith("f'v")]
+    for f_ in fresh:
+        cnt = [src(v.value) for v in f_.value.values
+               if isinstance(v, ast.FormattedValue)]
+        blk = next((b for b in _blocks_of(fi.node) if f_ in b), [])
+        k = blk.index(f_) if f_ in blk else -1
+        prev = blk[k - 1] if k > 0 else None
+        if not (len(cnt) == 1 and isinstance(prev, ast.AugAssign)
+                and isinstance(prev.op, ast.Add) and src(prev.target)
+                == cnt[0] and repo.const(fi.module, prev.value) == 1):
+            problems.append(f"`{src(f_)}`: a fresh variable name is not "
+                            "preceded by an increment of its counter: "
+                            "names can collide with live variables")
+        others = [x for x in ast.walk(fi.node) if isinstance(
+            x, (ast.AugAssign, ast.Assign, ast.AnnAssign)) and cnt and src(
+            x.targets[0] if isinstance(x, ast.Assign) else x.target)
+            == cnt[0] and x is not prev]
+        if any(isinstance(x, ast.AugAssign) or repo.const(
+                fi.module, x.value) != 0 for x in others):
+            problems.append(f"the name counter `{cnt[0]}` is changed "
+                            "elsewhere")
+    pops = [c for c in ast.walk(fi.node) if isinstance(c, ast.Call)
+            and isinstance(c.func, ast.Attribute) and c.func.attr == "pop"]
+    for p_ in pops:
+        lst = src(p_.func.value)
+        guard = next((i_ for i_ in ast.walk(fi.node) if isinstance(i_, ast.If)
+                      and any(p_ is x for s_ in i_.body
+                              for x in ast.walk(s_))), None)
+        g = src(guard.test).replace(" ", "") if guard is not None else ""
+        if g not in (f"len({lst})>0", f"len({lst})>=1", lst,
+                     f"len({lst})!=0", f"0<len({lst})"):
+            problems.append(f"`{src(p_)}` is not guarded by a non-empty "
+                            "test")
+        if p_.args and repo.const(fi.module, p_.args[0]) not in (0, -1):
+            problems.append(f"`{src(p_)}` can address beyond a one-element "
+                            "list")
+    ctx.ob("D16.7", fi, fi.node, not problems,
+           "every emitted statement is one balanced, terminated assignment; "
+           "each input name is defined as state[i] when it is registered; "
+           "fresh variable names are numbered uniquely; recycling pops only "
+           "a non-empty list" if not problems else
+           "; ".join(dict.fromkeys(problems)),
+           construct="emission grammar of make_ann")
+    # ---- the Controller and the factory bindings
+    mk = [c for c in ast.walk(fi.node) if isinstance(c, ast.Call)
+          and isinstance(c.func, ast.Name) and c.func.id == "Controller"]
+    okc = False
+    if len(mk) == 1 and len(mk[0].args) == 5 and not mk[0].keywords:
+        a = mk[0].args
+        cnt = None
+        for em_call in ast.walk(fi.node):
+            if isinstance(em_call, ast.JoinedStr):
+                vs = em_call.values
+                for k_, v in enumerate(vs):
+                    if isinstance(v, ast.FormattedValue) and isinstance(
+                            v.value, ast.Name) and k_ > 0 and isinstance(
+                            vs[k_ - 1], ast.Constant) and str(
+                            vs[k_ - 1].value).endswith("params["):
+                        cnt = v.value.id
+        okc = src(a[1]) == fi.params[0] and src(a[2]) == fi.params[1] and \
+            src(a[3]) == (cnt or "?") and src(a[4]).endswith(".build()")
+    ctx.ob("D16.7", fi, mk[0] if mk else fi.node, okc,
+           "Controller(name, state_dims, control_dims, <parameter counter>, "
+           "<generated function>)" if okc else
+           "the Controller is not created from (state_dims, control_dims, "
+           "parameter counter, code.build()) in this order",
+           construct="Controller of make_ann")
+    mod = fi.module
+    anns = mod.funcs.get("anns")
+    if anns is not None:
+        calls = [c for c in ast.walk(anns.node) if isinstance(c, ast.Call)
+                 and isinstance(c.func, ast.Name) and c.func.id == fi.name]
+        loc = {}
+        for s in func_body(anns):
+            if isinstance(s, (ast.Assign, ast.AnnAssign)) and \
+                    s.value is not None:
+                tg = s.targets[0] if isinstance(s, ast.Assign) else s.target
+                if isinstance(tg, ast.Name):
+                    loc[tg.id] = src(s.value)
+        sysn = anns.params[0]
+        okb = bool(calls) and all(
+            len(c.args) == 3 and loc.get(src(c.args[0]), src(c.args[0]))
+            == f"{sysn}.state_dims" and loc.get(
+                src(c.args[1]), src(c.args[1])) == f"{sysn}.control_dims"
+            and isinstance(c.args[2], ast.List) for c in calls)
+        ctx.ob("D16.7", anns, anns.node, okb,
+               f"all {len(calls)} architectures are built for "
+               "(system.state_dims, system.control_dims)" if okb else
+               "an architecture is built with state and control dimensions "
+               "exchanged or from other values",
+               construct="arguments of make_ann")
+
+
+def _blocks_of(node: ast.AST) -> list[list[ast.stmt]]:
+    out = []
+    for n in ast.walk(node):
+        for fld in ("body", "orelse"):
+            sub = getattr(n, fld, None)
+            if isinstance(sub, list) and sub and isinstance(
+                    sub[0], ast.stmt):
+                out.append(sub)
+    return out
+
+
+# ------------------------------------------------------------------ D16.8
+def check_code_generator(ctx: Ctx) -> None:
+    """CodeGenerator: indentation and line protocol, build()."""
+    repo = ctx.repo
+    mod = repo.module("moptipyapps.dynamic_control.controllers.codegen")
+    cg = mod.classes.get("CodeGenerator")
+    ctx.need(cg is not None, "CodeGenerator")
+    problems: list[str] = []
+
+    def src(n: ast.AST) -> str:
+        return ast.unparse(n).replace(" ", "")
+
+    def body_of(name: str) -> list[ast.stmt]:
+        m = cg.methods.get(name)
+        if m is None:
+            problems.append(f"method {name} missing")
+            return []
+        return func_body(m)
+    # field aliases from __init__
+    init = cg.methods["__init__"]
+    fld: dict[str, str] = {}
+    for n in ast.walk(init.node):
+        if isinstance(n, (ast.Assign, ast.AnnAssign)) and n.value is not None:
+            tg = n.targets[0] if isinstance(n, ast.Assign) else n.target
+            if isinstance(tg, ast.Attribute) and src(tg.value) == "self":
+                fld[tg.attr] = src(n.value)
+    ind = next((k for k, v in fld.items() if v == "1"), None)
+    start = next((k for k, v in fld.items() if v == "True"), None)
+    wr = next((k for k, v in fld.items() if v in ("wrt", "io.write")), None)
+    if ind is None or start is None or wr is None:
+        problems.append("CodeGenerator.__init__ does not start at indent 1, "
+                        "start-of-line, with a writer")
+    else:
+        S, I, Wn = f"self.{start}", f"self.{ind}", f"self.{wr}"
+        hdr = [text for text in (
+            "".join(v.value if isinstance(v, ast.Constant) else "#"
+                    for v in c.args[0].values) if isinstance(
+                c.args[0], ast.JoinedStr) else (
+                c.args[0].value if isinstance(c.args[0], ast.Constant)
+                else "?")
+            for c in ast.walk(init.node) if isinstance(c, ast.Call)
+            and src(c.func) in ("wrt", "io.write") and c.args)]
+        joined = "".join(hdr)
+        if not (joined.startswith("@numba.njit(") and joined.count(
+                "\n") == 2 and "def ____func(#) -> #:\n" in joined):
+            problems.append("the generated function does not start with the "
+                            "njit decorator line and `def ____func(args) -> "
+                            "ret:`")
+        w = body_of("write")
+        okw = len(w) == 2 and isinstance(w[0], ast.If) and src(
+            w[0].test) == S and not w[0].orelse and sorted(
+            src(x) for x in w[0].body) == sorted(
+            [f"{Wn}({I}*'')", f"{S}=False"]) and src(w[1]) == \
+            f"{Wn}({cg.methods['write'].params[1]})"
+        four = [c for c in ast.walk(cg.methods["write"].node)
+                if isinstance(c, ast.Constant) and isinstance(c.value, str)
+                and c.value.strip() == "" and c.value != ""]
+        if [c.value for c in four] != ["    "]:
+            problems.append("one indentation level is not four spaces")
+        if not okw:
+            alt = len(w) == 2 and isinstance(w[0], ast.If) and sorted(
+                src(x) for x in w[0].body) == sorted(
+                [f"{Wn}(''*{I})", f"{S}=False"])
+            if not alt:
+                problems.append("write(): the indent (4 spaces per level) "
+                                "is not emitted exactly at the start of a "
+                                "line, followed by the text")
+        e = body_of("endline")
+        oke = len(e) == 1 and isinstance(e[0], ast.If) and src(
+            e[0].test) == f"not{S}" and sorted(src(x) for x in e[0].body) \
+            == sorted([f"{Wn}('\\n')", f"{S}=True"])
+        if not oke:
+            problems.append("endline(): a newline is not written exactly "
+                            "when the line is not empty")
+        wl = body_of("writeln")
+        if [src(x) for x in wl] != [
+                f"self.write({cg.methods['writeln'].params[1]})",
+                "self.endline()"]:
+            problems.append("writeln() is not write(text); endline()")
+        if [src(x) for x in body_of("indent")] != [f"{I}+=1"]:
+            problems.append("indent() does not add one level")
+        un = body_of("unindent")
+        if not un or src(un[0]) != f"{I}-=1":
+            problems.append("unindent() does not remove one level")
+        b = body_of("build")
+        bs = [src(x) for x in b]
+        res = next((k for k, v in fld.items() if v.endswith("getvalue")),
+                   None)
+        okb = bool(bs) and "self.endline()" in bs and any(
+            x.startswith("exec(") for x in bs) and any(
+            x.endswith(f"self.{res}()") for x in bs) and any(
+            "['____func']" in x or '["____func"]' in x for x in bs)
+        if okb:
+            ex = next(x for x in b if src(x).startswith("exec("))
+            cv = next((x for x in b if src(x).endswith(f"self.{res}()")),
+                      None)
+            cvn = src(cv.targets[0] if isinstance(cv, ast.Assign)
+                      else cv.target) if cv is not None else "?"
+            okb = src(ex.value.args[0]) == cvn and bs.index(
+                "self.endline()") < bs.index(src(cv))
+        if not okb:
+            problems.append("build() does not finish the last line, take "
+                            "the text and exec it to obtain ____func")
+    ctx.ob("D16.8", cg.methods["__init__"], cg.node, not problems,
+           "CodeGenerator: header (njit decorator, def line), body lines "
+           "indented by 4 spaces per level exactly at the start of a line, "
+           "newline exactly after non-empty lines, indent/unindent by one, "
+           "build() compiles the finished text" if not problems else
+           "; ".join(problems), construct="CodeGenerator protocol")
